@@ -8,7 +8,7 @@ import math
 
 from hypothesis import strategies as st
 
-ANGLES = [math.pi / 2, math.pi / 4, -math.pi / 8, math.pi, 0.3, -1.1, 2.5]
+ANGLES = [math.pi / 2, math.pi / 4, -math.pi / 8, math.pi, 0.3, -1.1, 2.5, 0.0]
 
 ARITY = {
     "X": 1, "Y": 1, "Z": 1, "H": 1, "S": 1, "T": 1, "P": 1, "I": 1,
